@@ -10,6 +10,8 @@
  *                                      f<k>  free the k-th (mod n) block of the shared list of outstanding
  *                                            blocks (sowr: it and every block allocated before it)
  *                                      o<k>  free the k-th (mod n) outstanding block allocated by this thread
+ *                                      ring pool: f<k>/o<k> with k >= 100 wait (passing the point "op" again)
+ *                                      while there is nothing to free, instead of skipping
  *   sched <spec>                     see vsched.h
  * Before every operation the thread passes the harness scheduling point "op".
  * Notes (R lines): "a" alloc called; "r b<k>" returned block k; "r b<k> DUP" returned a block
@@ -143,7 +145,7 @@ static void op_alloc(int me)
 	vs_note("r b%d", blk);
 }
 
-static void op_free(int me, int own, int k)
+static int pick_entry(int me, int own, int k)
 {
 	int j = -1;
 	if (kind == K_SOWR || !own) {
@@ -152,6 +154,18 @@ static void op_free(int me, int own, int k)
 		int idx[MAXOUT], c = 0;
 		for (int i = 0; i < nout; i++) if (out[i].owner == me) idx[c++] = i;
 		if (c > 0) j = idx[k % c];
+	}
+	return j;
+}
+
+static void op_free(int me, int own, int k)
+{
+	int j = pick_entry(me, own, k);
+	/* ring pool, k >= 100: blocking variant - a consumer that waits (passing the harness point again)
+	 * until there is a block to free */
+	while (j < 0 && kind == K_RING && k >= 100) {
+		vs_yield_point("op");
+		j = pick_entry(me, own, k);
 	}
 	if (j < 0) { vs_note("f skip"); return; }
 	unsigned char *p = out[j].p;
